@@ -259,8 +259,23 @@ C06_StepInRange(I, ev) ==
         hi == Max(Val(I.pre.cur), Val(I.pre.tgt))
     IN \A k \in 2..Len(S) :
          LET d   == Diff(S[k], S[k - 1])
-             tol == 2 * EpsAt(I, S[k]) + Quant(I) + RampTol(I, ev)
+             tol == 2 * EpsAt(I, S[k]) + Quant(I) + 4
          IN lo - tol <= d /\ d <= hi + tol
+
+\* ... and the ramp MOVES: over a ramped chunk the spacing gets closer to 1/new by at least half of what the
+\* slowest admissible ramp (the change spread over output_frames_max frames) covers in that many frames.
+\* (The fixed-input types plan the ramp for chunk x mean ratio frames and may run out of input long before;
+\* the property only asks for a monotone move towards 1/new and for 1/new from the next chunk on.)
+C06_RampMoves(I, ev) ==
+  (HasTaus(I, ev) /\ I.pre.cur # I.pre.tgt /\ ~IsNearest(I)) =>
+    LET S == TauSeq(I, ev)
+        n == Len(S)
+        stepMin == Abs(Val(I.pre.tgt) - Val(I.pre.cur)) \div Max(1, ev.pre.out_max)
+        expected == stepMin * (n - 2)
+    IN (n >= 4 /\ expected > 8 * (2 * EpsAt(I, S[n]) + Quant(I) + 4)) =>
+         LET first == Diff(S[2], S[1])
+             last  == Diff(S[n], S[n - 1])
+         IN Abs(first - Val(I.pre.tgt)) - Abs(last - Val(I.pre.tgt)) >= expected \div 2
 
 \* ramped call: spacing moves monotonically from 1/old towards 1/new
 C06_RampMonotone(I, ev) ==
